@@ -2,6 +2,16 @@ mod common;
 mod py;
 mod c16;
 mod c18;
+mod lex;
+mod model;
+mod obs;
+mod obs_go;
+mod obs_kotlin;
+mod obs_py;
+mod obs_scala;
+mod obs_swift;
+mod obs_ts;
+mod observe;
 mod ts;
 #[allow(dead_code, unused_imports)]
 #[path = "../../vendor/serde_case.rs"]
@@ -33,6 +43,9 @@ fn main() {
     }
     if args[0] == "selftest" {
         std::process::exit(selftest());
+    }
+    if args[0] == "observe" && args.len() == 3 {
+        std::process::exit(observe_cmd(&args[1], &args[2]));
     }
     if args.len() < 2 {
         usage();
@@ -106,5 +119,48 @@ fn do_replay(prop: &'static str, file: &str) -> i32 {
 }
 
 fn selftest() -> i32 {
+    // calibration: every snapshot output of the repository must be accepted by the observers
+    let mut w = Worker::new("selftest", 0);
+    let mut bad = 0;
+    let mut n = 0;
+    let root = "/repo/core/data/tests";
+    let mut dirs: Vec<_> = std::fs::read_dir(root).map(|r| r.flatten().map(|e| e.path()).collect()).unwrap_or_default();
+    dirs.sort();
+    for d in dirs {
+        for lang in ts::ALL_LANGS {
+            let f = d.join(format!("output.{}", lang.ext()));
+            let Ok(text) = std::fs::read_to_string(&f) else { continue };
+            n += 1;
+            if let Err(e) = observe::observe(lang, &text, &mut w, false) {
+                bad += 1;
+                println!("selftest: observer rejects {}: {}", f.display(), e.show());
+            }
+        }
+    }
+    println!("selftest: {n} snapshot outputs observed, {bad} rejected");
+    // known-bad snapshot outputs (examined by hand, see DESIGN §9) are tolerated up to the recorded number
+    let allowed = std::fs::read_to_string(format!("{VERIF}/tools/calibration_rejects.txt")).map(|s| s.lines().filter(|l| !l.trim().is_empty() && !l.starts_with('#')).count()).unwrap_or(0);
+    if bad > allowed {
+        return 2;
+    }
     0
+}
+
+fn observe_cmd(lang: &str, file: &str) -> i32 {
+    let Some(lang) = ts::Lang::from_name(lang) else { return 2 };
+    let text = std::fs::read_to_string(file).expect("read");
+    let mut w = Worker::new("observe", 0);
+    match observe::observe(lang, &text, &mut w, true) {
+        Ok(o) => {
+            println!("{}", serde_json::to_string_pretty(&o.file).unwrap());
+            if let Some(p) = o.py {
+                println!("exec_error: {:?}", p.exec_error);
+            }
+            0
+        }
+        Err(e) => {
+            println!("REJECTED: {}", e.show());
+            1
+        }
+    }
 }
